@@ -164,7 +164,14 @@ func (cx *Ctx) oracleC18(rs []JobResult) (bool, string, string, string) {
 			return "ended in a panic"
 		}
 	}
+	lastEnd := uint64(0)
+	if n := len(ocs); n > 0 && n < len(calls) {
+		lastEnd = ocs[n-1].End // the history stopped early (process-fatal call): nothing after it is judged
+	}
 	for _, ev := range h.Res.Events {
+		if lastEnd != 0 && ev.Seq > lastEnd {
+			continue
+		}
 		inside := false
 		for _, v := range owners[ev.Monitor] {
 			if v.a < ev.Seq && (v.b == 0 || ev.Seq < v.b) {
